@@ -265,10 +265,16 @@ class MetricPickleReceiver(MetricReceiver, Int32StringReceiver):
     try:
       datapoints = self.unpickler.loads(data)
     # Pickle can throw a wide range of exceptions
-    except (pickle.UnpicklingError, ValueError, IndexError, ImportError,
-            KeyError, EOFError) as exc:
+    except Exception as exc:
       log.listener('invalid pickle received from %s, error: "%s", ignoring' % (
                    self.peerName, exc))
+      return
+
+    try:
+      datapoints = iter(datapoints)
+    except TypeError:
+      log.listener('invalid pickle received from %s, not a list of datapoints, ignoring' %
+                   self.peerName)
       return
 
     for raw in datapoints:
@@ -280,12 +286,16 @@ class MetricPickleReceiver(MetricReceiver, Int32StringReceiver):
 
       try:
         datapoint = (float(value), float(timestamp))  # force proper types
-      except (ValueError, TypeError):
+      except (ValueError, TypeError, OverflowError):
         continue
 
       # convert python2 unicode objects to str/bytes
       if not isinstance(metric, str):
-        metric = metric.encode('utf-8')
+        try:
+          metric = metric.encode('utf-8')
+        except Exception:
+          # not a string at all: malformed entry
+          continue
 
       self.metricReceived(metric, datapoint)
 
